@@ -124,7 +124,9 @@ def gen_desc(rng, with_par):
                 a = b
         cyc = not with_par and rng.random() < 0.1
         if with_par:
-            par = pargen.gen_par_stage(rng, backends=('t',), max_extra_b=1, catch_p=0.25)
+            par = pargen.gen_par_stage(
+                rng, backends=('t',) if rng.random() < 0.75 else tuple(pargen.BACKENDS_POOL),
+                max_extra_b=1, catch_p=0.25)
             b = pargen.abs_apply(a, par)
             if b is None:
                 continue
